@@ -94,6 +94,7 @@ class Roles:
         self.note('ResourceNode', self.resource_node)
         # session struct
         self.session_adt = None
+        self.tracking_adt = 'pie::pie::Tracking'
         for p, a in F.adts.items():
             if a['kind'] != 'struct' or a['crate'] != 'pie':
                 continue
@@ -108,6 +109,8 @@ class Roles:
                 self.f_errors = errs[0]
                 self.f_store = next((n for n, t in fields.items() if self.store_adt and self.store_adt in t), None)
                 self.f_tracker = next((n for n, t in fields.items() if 'Tracking' in t), None)
+                # the wrapper type around the tracker (wherever it is declared): the type of that field
+                self.tracking_adt = type_head(fields[self.f_tracker].lstrip('&').replace('mut ', '', 1).strip()) if self.f_tracker else 'pie::pie::Tracking'
                 self.f_state = next((n for n, t in fields.items() if 'TypeToAnyMap' in t), None)
         self.note('Session', self.session_adt)
         if self.session_adt:
